@@ -298,8 +298,10 @@ Fixpoint cut_colon (s : bytes) : option (bytes * bytes) :=
   | b :: r => if N.eqb b 58 then Some ([], r)
               else match cut_colon r with Some (u, pw) => Some (b :: u, pw) | None => None end
   end.
-Definition basic_roundtrip (u pw : bytes) : bytes * bytes :=
-  match cut_colon (basic_join u pw) with Some r => r | None => ([], []) end.
+(* client: a user name containing ':' is refused (RFC 7617), nothing is sent *)
+Definition has_colon (u : bytes) : bool := existsb (fun b => N.eqb b 58) u.
+Definition basic_send (u pw : bytes) : option (bytes * bytes) :=
+  if has_colon u then None else cut_colon (basic_join u pw).
 
 (* where the design puts a credential *)
 Inductive loc :=
@@ -316,12 +318,16 @@ Definition arrive (l : loc) (c : bytes) : bytes :=
   end.
 
 (* payload the server hands to the endpoint for the payload given to the client *)
-Definition transport (L : locs) (p : creds) : creds :=
-  let up := basic_roundtrip (p_user p) (p_pass p) in
-  {| p_user := fst up; p_pass := snd up;
-     p_token := arrive (l_token L) (p_token p);
-     p_atoken := arrive (l_atoken L) (p_atoken p);
-     p_keys := map (fun kv => (fst kv, arrive (lookup (fst kv) (l_keys L) (LHeader false)) (snd kv))) (p_keys p) |}.
+(* None: the client refuses to send the request *)
+Definition transport (L : locs) (p : creds) : option creds :=
+  match basic_send (p_user p) (p_pass p) with
+  | None => None
+  | Some up =>
+    Some {| p_user := fst up; p_pass := snd up;
+            p_token := arrive (l_token L) (p_token p);
+            p_atoken := arrive (l_atoken L) (p_atoken p);
+            p_keys := map (fun kv => (fst kv, arrive (lookup (fst kv) (l_keys L) (LHeader false)) (snd kv))) (p_keys p) |}
+  end.
 
 Definition no_ows (c : bytes) : Prop := forall b, In b c -> is_ows b = false.
 Definition header_safe (c : bytes) : Prop := c <> [] /\ no_ows c.
